@@ -51,7 +51,7 @@ func checkC09(p *Prog, c *Check) {
 	exempt := map[string]string{
 		"(*app.ShutterApp).maybePersistToDisk|time.Since": "persist timer: value used only to decide whether to write the state file; Commit returns a constant response (checked below)",
 		"(*app.ShutterApp).maybePersistToDisk|time.Now":   "persist timer: stored in LastSaved only, which no ABCI response depends on (checked below)",
-		"(*app.ShutterApp).PersistToDisk|time.Now":         "persist timer bookkeeping",
+		"(*app.ShutterApp).PersistToDisk|time.Now":        "persist timer bookkeeping",
 	}
 	detScope(p, c, "C09-DET", roots, &detOpts{exempt: exempt})
 	// side conditions of the exemption: Commit returns a constant; LastSaved is read only in maybePersistToDisk
